@@ -167,7 +167,9 @@ def adversarial(g, depth):
     if r.random() < 0.4:
         t1 = g.ty(1, in_field=True)
     fa, fb = r.sample(universe.NAMES, 2)
-    base = r.choice(["Node", "Item", "Twin"])
+    # (names that are also attributes of the `typing` module: a reference to such a class must still be resolved in ITS module)
+    base = r.choice(["Node", "Item", "Twin", "Text", "Counter", "Set", "Type", "Sequence", "Pattern", "Match", "Container", "List", "Dict",
+                     "Optional", "Any", "Final"])
     na = _fresh_name(g.prog, mods[0], base)
     a = add_class(g, na, mods[0], flav(), [[fa, t1], [fb, ["coll", "list", t1, {"sp": "builtin"}]]])
     mb = mods[-1]
@@ -288,8 +290,11 @@ def _kind(a, P):
     if _CTORS is None:
         _CTORS = {"list": list, "set": set, "frozenset": frozenset, "deque": collections.deque}
     if isinstance(a, type) and a in P.cid and P.spec["classes"][P.cid[a]]["kind"] != "enum":
-        # class variables are not fields of the instance
-        return ("cls", a, {f: h for f, h in typing.get_type_hints(a).items() if typing.get_origin(h) is not typing.ClassVar})
+        # class variables are not fields of the instance; a class without class-level annotations declares its fields on __init__
+        hints = {f: h for f, h in typing.get_type_hints(a).items() if typing.get_origin(h) is not typing.ClassVar}
+        if not hints and "__init__" in vars(a):
+            hints = {f: h for f, h in typing.get_type_hints(a.__init__).items() if f != "return"}
+        return ("cls", a, hints)
     origin, args = typing.get_origin(a), typing.get_args(a)
     if origin is tuple:
         if len(args) == 2 and args[1] is Ellipsis:
